@@ -120,6 +120,28 @@ claim("C01", "model_checking",
       "Ensemble.tla runs three lattice chains with the trial/accept/reject structure of the engine and Accept.tla's rule (canonical ring with site energies; ideal gas on a log-volume lattice with the uniform-in-ln V proposal, which is where the exponent N+1 is forced; grand-canonical ideal gas with Poisson target) and TLC checks pi(s)K(s,t) = pi(t)K(t,s) for every transition in integer form, that a rejection keeps the state and that every move is reversible. The code's kernel equals the specified one factor by factor (C02 acceptance, C03/C05 restoration and bookkeeping, C04 energies, C10 proposal symmetry). End to end, real Canonical / HamiltonianCanonical / Isobaric / Isotension / GrandCanonical runs on harmonic wells, a rigid dipole in a field, ideal gases (also with temperature and chemical potential re-assigned mid-run) are sampled after every step and compared with the exact values (3N/2 kT, coth x - 1/x, (N+1)kT/P and its variance, Poisson mean / variance / histogram, uniform positions and orientations).",
       "'Long simulations reproduce' is a limit over arbitrarily long histories: TLC decides detailed balance of the specification exactly on lattice instances; the end-to-end part is finite-sample agreement at |z| <= 6 (block-averaged errors, one doubled re-run before reporting), resolving biases above about 3% (quick) / 1% (thorough).", "5 C01")
 
+
+# additions made while strengthening the checks against seeded changes (DESIGN.md section 8.6); appended to the text above
+EXTRA = {
+    "C01": " The molecular template is tilted against the axes; one grand-canonical history declares an accessible volume and is stopped, rebuilt from its dictionary and continued.",
+    "C02": " Sequences of four trials on one configured simulation (parameters set once) and runs started after a manual pre-strain of the cell (the first trial is judged against the volume at the start of the run; the uniform is scripted between the two candidate ratios) are judged by the same mirror.",
+    "C03": " MC_QMC.tla is also checked exhaustively (11 invariants over 7 set-ups incl. FixCom and composite exchange) and its complete behaviours are replayed into the real drivers (spec -> code).",
+    "C04": " MC_QMC.tla (exhaustive, with a Restart action: the run continues from its restart dictionary with a fresh calculator) and its replay into the real drivers; a quarter of the recorded runs start from a simulation rebuilt through to_dict / JSON / from_dict with a fresh calculator.",
+    "C05": " MC_QMC.tla (exhaustive) and its replay; scenario families include an identity swap in both orders inside one trial and runs that empty the system.",
+    "C06": " The same seed is also run in fresh interpreters with other PYTHONHASHSEED values (the other process-wide source of arbitrariness) and must give the same tokens.",
+    "C07": " Tables include default_label 0 and one exchange move shared by a stand-alone and a composite entry; Restart.tla names the transient pre-selections that are not saved.",
+    "C08": " Registry.tla (insertion order, last registration wins, first name of a class, typed lookup) is replayed on the real registry.",
+    "C11": " A scenario family empties the system so that composite displacement moves are called with no eligible particle (reported count must be zero).",
+    "C12": " Each numeric run is followed by four runs of the same object started after the user shifted the system by hand (cold rounds).",
+    "C13": " Every fifth instance uses fictitious sampling masses given to the driver through update_masses (per atom or per coordinate).",
+    "C14": " The reversibility / order layer includes a rotating rigid bond (FixBondLength).",
+    "C15": " Plans may contain a rebuild (to_dict -> from_dict between two calls) and drivers without a log file; a counter of requested steps makes 'exactly the requested number' an invariant; liveness (every plan completes) is checked under weak fairness in the thorough tier.",
+    "C16": " Files.tla also has a failing logger call (nothing written) and pre-existing file content in 'a' mode, both bound by recorded histories; LoggerFields.tla (field management: insertion order, replace in place, remove by pattern) and Observers.tla (file ownership) are replayed on the real classes.",
+    "C18": " The curve is also replayed with reference variances 1 and 2 (coefficients above 1, committees of c^2+1 members).",
+    "C19": " The caller's default array is handed over as is after an earlier search; delete + re-insert is also exercised the way the library composes it (a rejected grand-canonical trial that deletes one particle and inserts another, both orders).",
+    "C20": " The cell-changing ensembles also hold a user-defined constant-volume cell move W; the strict user objects are falsy and log truth-value tests.",
+}
+
 NOT_YET = "check not built yet in this round (planned in DESIGN.md section 5); will be claimed once its spec and conformance harness exist"
 
 
@@ -133,6 +155,7 @@ def main():
         if pid not in CLAIMS:
             continue
         cat, tech, text, note, ref = CLAIMS[pid]
+        text = text + EXTRA.get(pid, "")
         checks.append({
             "property_id": pid,
             "quick_cmd": f"./check {pid} quick",
